@@ -53,7 +53,9 @@ Record faults := {
   f_ha : bool;                    (* health after the upgraded daemon starts *)
   f_hr : bool;                    (* health after the rolled-back daemon starts *)
   f_ob : list (path * bool);      (* obstacles appearing when the swap stage begins (true = persistent) *)
-  f_rob : list (path * bool) }.   (* obstacles appearing when the restore stage begins *)
+  f_rob : list (path * bool);     (* obstacles appearing when the restore stage begins *)
+  f_st : list (path * N);         (* stale regular staging files (with their mode) appearing when the swap stage begins *)
+  f_rst : list (path * N) }.      (* ... when the restore stage begins *)
 
 (* v_mode_fix (88f69f7): rollback restores setuid/setgid/sticky; v_curm_fix (f4d379f): rollback restores
    current-manifest.yaml; v_keep_fix (b6afef3): a ForceRetry apply over an interrupted upgrade keeps that upgrade's
@@ -95,17 +97,23 @@ Record world := {
   g_base : option ghost;
   g_inst : ver;                            (* ghost: version the installed artifacts belong to *)
   g_fs0 : path -> option file;             (* ghost: the whole tree when the journal's upgrade began *)
-  g_clean : bool }.                        (* ghost: no operator edit since then *)
+  g_clean : bool;                          (* ghost: no operator edit since then *)
+  stale : path -> option N;                (* a REGULAR file sitting at <dir>/.<base>.new (left by a swap that was killed
+                                              between writing it and the rename): its mode *)
+  cfg_stage_fix : bool }.                  (* swapArtifact removes such a leftover before writing (true = /repo HEAD
+                                              once fixes/C18_swap_discards_stale_staging_file is in) *)
 
-Definition set_fs w f := {| fs := f; cur := cur w; jr := jr w; snaps := snaps w; obst := obst w; g_base := g_base w; g_inst := g_inst w; g_fs0 := g_fs0 w; g_clean := g_clean w |}.
-Definition set_cur w c := {| fs := fs w; cur := c; jr := jr w; snaps := snaps w; obst := obst w; g_base := g_base w; g_inst := g_inst w; g_fs0 := g_fs0 w; g_clean := g_clean w |}.
-Definition set_jr w j := {| fs := fs w; cur := cur w; jr := j; snaps := snaps w; obst := obst w; g_base := g_base w; g_inst := g_inst w; g_fs0 := g_fs0 w; g_clean := g_clean w |}.
-Definition set_snaps w s := {| fs := fs w; cur := cur w; jr := jr w; snaps := s; obst := obst w; g_base := g_base w; g_inst := g_inst w; g_fs0 := g_fs0 w; g_clean := g_clean w |}.
-Definition set_obst w o := {| fs := fs w; cur := cur w; jr := jr w; snaps := snaps w; obst := o; g_base := g_base w; g_inst := g_inst w; g_fs0 := g_fs0 w; g_clean := g_clean w |}.
-Definition set_gbase w g := {| fs := fs w; cur := cur w; jr := jr w; snaps := snaps w; obst := obst w; g_base := g; g_inst := g_inst w; g_fs0 := g_fs0 w; g_clean := g_clean w |}.
-Definition set_ginst w v := {| fs := fs w; cur := cur w; jr := jr w; snaps := snaps w; obst := obst w; g_base := g_base w; g_inst := v; g_fs0 := g_fs0 w; g_clean := g_clean w |}.
+Definition set_fs w f := {| fs := f; cur := cur w; jr := jr w; snaps := snaps w; obst := obst w; g_base := g_base w; g_inst := g_inst w; g_fs0 := g_fs0 w; g_clean := g_clean w; stale := stale w; cfg_stage_fix := cfg_stage_fix w |}.
+Definition set_cur w c := {| fs := fs w; cur := c; jr := jr w; snaps := snaps w; obst := obst w; g_base := g_base w; g_inst := g_inst w; g_fs0 := g_fs0 w; g_clean := g_clean w; stale := stale w; cfg_stage_fix := cfg_stage_fix w |}.
+Definition set_jr w j := {| fs := fs w; cur := cur w; jr := j; snaps := snaps w; obst := obst w; g_base := g_base w; g_inst := g_inst w; g_fs0 := g_fs0 w; g_clean := g_clean w; stale := stale w; cfg_stage_fix := cfg_stage_fix w |}.
+Definition set_snaps w s := {| fs := fs w; cur := cur w; jr := jr w; snaps := s; obst := obst w; g_base := g_base w; g_inst := g_inst w; g_fs0 := g_fs0 w; g_clean := g_clean w; stale := stale w; cfg_stage_fix := cfg_stage_fix w |}.
+Definition set_obst w o := {| fs := fs w; cur := cur w; jr := jr w; snaps := snaps w; obst := o; g_base := g_base w; g_inst := g_inst w; g_fs0 := g_fs0 w; g_clean := g_clean w; stale := stale w; cfg_stage_fix := cfg_stage_fix w |}.
+Definition set_gbase w g := {| fs := fs w; cur := cur w; jr := jr w; snaps := snaps w; obst := obst w; g_base := g; g_inst := g_inst w; g_fs0 := g_fs0 w; g_clean := g_clean w; stale := stale w; cfg_stage_fix := cfg_stage_fix w |}.
+Definition set_ginst w v := {| fs := fs w; cur := cur w; jr := jr w; snaps := snaps w; obst := obst w; g_base := g_base w; g_inst := v; g_fs0 := g_fs0 w; g_clean := g_clean w; stale := stale w; cfg_stage_fix := cfg_stage_fix w |}.
 
-Definition set_gfs0 w f c := {| fs := fs w; cur := cur w; jr := jr w; snaps := snaps w; obst := obst w; g_base := g_base w; g_inst := g_inst w; g_fs0 := f; g_clean := c |}.
+Definition set_gfs0 w f c := {| fs := fs w; cur := cur w; jr := jr w; snaps := snaps w; obst := obst w; g_base := g_base w; g_inst := g_inst w; g_fs0 := f; g_clean := c; stale := stale w; cfg_stage_fix := cfg_stage_fix w |}.
+
+Definition set_stale w s := {| fs := fs w; cur := cur w; jr := jr w; snaps := snaps w; obst := obst w; g_base := g_base w; g_inst := g_inst w; g_fs0 := g_fs0 w; g_clean := g_clean w; stale := s; cfg_stage_fix := cfg_stage_fix w |}.
 
 Definition upd {A} (f : N -> A) (k : N) (v : A) : N -> A := fun q => if N.eqb q k then v else f q.
 
@@ -128,18 +136,35 @@ Definition clear_once (o : path -> option bool) (p : path) : path -> option bool
   fun q => if N.eqb q p then match o q with Some false => None | x => x end else o q.
 
 (* src = bytes of the source file (None: source cannot be opened) *)
+Definition clear_stale (w : world) (p : path) : world := set_stale w (upd (stale w) p None).
+
+(* the mode the staged file ends up with: an existing leftover keeps its mode through O_TRUNC, and that mode
+   survives when the manifest gives none (no chmod) *)
+Definition staged_mode (w : world) (p : path) (m : amode) : option N :=
+  match (if cfg_stage_fix w then None else stale w p), m with
+  | Some m0, MEmpty => Some m0
+  | _, _ => new_mode m
+  end.
+
 Definition swap_artifact (w : world) (src : option content) (p : path) (m : amode) : world * bool :=
   match src, obst w p with
   | Some c, None =>
-      match new_mode m with
-      | None => (w, false)
+      match staged_mode w p m with
+      | None => (clear_stale w p, false)                               (* parse error: staging file removed *)
       | Some mm =>
           match fs w p with
-          | Some Dir => (w, false)                                   (* rename onto a directory *)
-          | _ => (set_fs w (upd (fs w) p (Some (Reg c mm))), true)
+          | Some Dir => (clear_stale w p, false)                       (* rename onto a directory *)
+          | _ => (clear_stale (set_fs w (upd (fs w) p (Some (Reg c mm)))) p, true)   (* the staging file is renamed away *)
           end
       end
-  | _, _ => (set_obst w (clear_once (obst w) p), false)              (* os.Remove(stagingName) *)
+  | _, _ => (clear_stale (set_obst w (clear_once (obst w) p)) p, false)   (* os.Remove(stagingName) *)
+  end.
+
+(* a leftover regular staging file appears (a dying swap left it); a directory obstacle at the same name is replaced *)
+Fixpoint install_stale (w : world) (l : list (path * N)) : world :=
+  match l with
+  | [] => w
+  | (p, m) :: r => install_stale (set_obst (set_stale w (upd (stale w) p (Some m))) (upd (obst w) p None)) r
   end.
 
 Fixpoint install_ob (o : path -> option bool) (l : list (path * bool)) : path -> option bool :=
@@ -147,6 +172,11 @@ Fixpoint install_ob (o : path -> option bool) (l : list (path * bool)) : path ->
   | [] => o
   | (p, s) :: r => install_ob (upd o p (Some s)) r
   end.
+
+(* directory obstacles appear; each replaces whatever sat at that staging name *)
+Definition with_obs (w : world) (l : list (path * bool)) : world :=
+  set_stale (set_obst w (install_ob (obst w) l))
+            (fun q => if existsb (fun pb => N.eqb q (fst pb)) l then None else stale w q).
 
 (* ---- Snapshot ---- *)
 Definition rec_mode (v : variant) (m : N) : N := if v_mode_fix v then m else N.land m 511.
@@ -263,7 +293,7 @@ Definition rollback_flow (v : variant) (F : faults) (w : world) : world * rbres 
         | OCrash => (w, RbCrash)
         | OFail => (w, RbErr)
         | OGo =>
-          let w1 := set_obst w (install_ob (obst w) (f_rob F)) in
+          let w1 := install_stale (with_obs w (f_rob F)) (f_rst F) in
           let '(w2, ok) := restore_loop w1 d (rev es) in
           if negb ok then (set_phase w2 PRollbackFailed, RbErr) else
           let w3 := restore_ginst (restore_curm v w2 d) in
@@ -381,7 +411,7 @@ Definition after_snapshot (v : variant) (T : tarball) (F : faults) (from : ver) 
     | OGo =>
       let w5 := set_phase w4 PDaemonStopped in
       if crash_at F 29 then (w5, RCrash) else
-      let w6 := set_obst w5 (install_ob (obst w5) (f_ob F)) in
+      let w6 := install_stale (with_obs w5 (f_ob F)) (f_st F) in
       let '(w7, sok) := swap_loop w6 arts in
       if negb sok then
         (if crash_at F 51 then (w7, RCrash) else auto_rollback v F (set_phase w7 PAbortedMidSwap))
@@ -530,7 +560,7 @@ Definition step (v : variant) (w : world) (o : op) : world * (res * mon) :=
       | RbErr => (w', (RRbErr, MonNone))
       | RbCrash => (w', (RCrash, MonNone))
       end
-  | OpClear => (set_obst w (fun _ => None), (RCleared, MonNone))
+  | OpClear => (set_stale (set_obst w (fun _ => None)) (fun _ => None), (RCleared, MonNone))
   | OpEdit p f => (set_gfs0 (set_fs w (upd (fs w) p f)) (g_fs0 w) false, (REdited, MonNone))
   end.
 
@@ -564,7 +594,12 @@ Fixpoint run (v : variant) (w : world) (ops : list op) : list (world * (res * mo
 
 Definition init_world (c : ver) (f : path -> option file) : world :=
   {| fs := f; cur := c; jr := None; snaps := fun _ => None; obst := fun _ => None; g_base := None; g_inst := c;
-     g_fs0 := f; g_clean := true |}.
+     g_fs0 := f; g_clean := true; stale := fun _ => None; cfg_stage_fix := true |}.
+
+(* /repo before the stale-staging repair *)
+Definition init_world_reusing (c : ver) (f : path -> option file) : world :=
+  set_stale {| fs := f; cur := c; jr := None; snaps := fun _ => None; obst := fun _ => None; g_base := None; g_inst := c;
+               g_fs0 := f; g_clean := true; stale := fun _ => None; cfg_stage_fix := false |} (fun _ => None).
 
 Definition repaired : variant :=
   {| v_mode_fix := true; v_curm_fix := true; v_keep_fix := true; v_stale_fix := true; v_same_fix := true |}.
